@@ -2,6 +2,7 @@
 import json
 import random
 
+from harness import ref_text as RT
 from harness import core, gen_db as GD, impl_text as IT, speller as SP
 from harness import parse_common as PC
 from harness.driver import Driver, DriverError
@@ -70,12 +71,27 @@ def inject(rng, spec, kind):
     if kind == 'noColumns':
         return rng.choice([f'Table {fresh} {{\n  Note: \'no columns\'\n}}', f'Table {fresh} {{\n}}',
                            f'Table {fresh} {{\n  indexes {{\n    id\n  }}\n}}'])
+    def near_miss(name, taken):
+        """a name that does not exist but looks like one that does: other letter case, a blank or a suffix added"""
+        cands = [name.swapcase(), name.upper(), name.capitalize(), name + '_', name + ' ', ' ' + name, name + 's', name[:-1]]
+        cands = [c for c in cands if c and c not in taken and c != name]
+        return rng.choice(cands) if cands else None
     if kind == 'danglingRefTable':
         t = rng.choice(T)
+        if rng.random() < 0.4:
+            nm = near_miss(t['name'], {x['name'] for x in T} | {x['alias'] for x in T if x['alias']})
+            if nm is not None and '.' not in nm:
+                sch = '' if t['schema'] == 'public' else sp.ident(t['schema']) + '.'
+                return f'Ref: {sch}"{nm}".{sp.ident(t["columns"][0]["name"])} > {sp.table_addr(spec, T.index(t))}.{sp.ident(t["columns"][0]["name"])}'
         return f'Ref: nosuch_{fresh}.id > {sp.table_addr(spec, T.index(t))}.{sp.ident(t["columns"][0]["name"])}'
     if kind == 'danglingRefColumn':
         ti = rng.randrange(len(T))
         t = T[ti]
+        if rng.random() < 0.5:
+            c0 = rng.choice(t['columns'])['name']
+            nm = near_miss(c0, {c['name'] for c in t['columns']})
+            if nm is not None and nm.strip('() ') == nm and ',' not in nm and nm.strip('() ') not in {c['name'] for c in t['columns']}:
+                return f'Ref: {sp.table_addr(spec, ti)}."{nm}" > {sp.table_addr(spec, ti)}.{sp.ident(t["columns"][0]["name"])}'
         return f'Ref: {sp.table_addr(spec, ti)}.nosuch_{fresh} > {sp.table_addr(spec, ti)}.{sp.ident(t["columns"][0]["name"])}'
     if kind == 'danglingIndexColumn':
         return f'Table {fresh} {{\n  id int\n  indexes {{\n    nosuch_col\n  }}\n}}'
@@ -87,7 +103,7 @@ def inject(rng, spec, kind):
 def mk_case(job):
     seed, kind = job
     rng = random.Random(seed)
-    spec = SP.normalise_for_spelling(GD.gen_spec(rng, wild=False, max_tables=3), IT.norm_impl)
+    spec = SP.normalise_for_spelling(GD.gen_spec(rng, wild=False, max_tables=3), RT.ref_norm)
     if not SP.spellable(spec):
         return None
     text, exp, info = SP.spell(spec, rng, {'varied': True})
